@@ -114,10 +114,13 @@ type c04Ref struct {
 
 func H_C04_Tree(shape int) {
 	tier := 1
-	if shape < len(c04Shapes(0)) {
+	memo := func(t int) []c04Cfg {
+		return verifrt.Memo("c04Shapes"+string([]byte{byte('0' + t)}), func() interface{} { return c04Shapes(t) }).([]c04Cfg)
+	}
+	if shape < len(memo(0)) {
 		tier = 0
 	}
-	cfg := c04Shapes(tier)[shape]
+	cfg := memo(tier)[shape]
 	tree := c04Trees(tier)[cfg.tree]
 	s := NewStore()
 	db := openReal(stubDialector{}, s, &gorm.Config{PrepareStmt: cfg.prepare, DisableNestedTransaction: cfg.disableNested, SkipDefaultTransaction: cfg.skipDefault})
